@@ -8,6 +8,9 @@ lines 890-896, 1055-1063, 1195-1201).
 * `next_timestamp` is the CAS loop `load; compute_next; compare_exchange`; under sequential consistency of the
   three `SeqCst` operations every thread's iteration is the three atomic steps `load`, `compute`, `cas` below.
   The clock is an arbitrary input of every `compute` step (it may stall, repeat, jump backwards, be pre-epoch).
+* `computeNextW` ← `compute_next` in full (lines 99-137), i.e. with the warning arm: configuration, `Mutex<Instant>`,
+  `Instant::now()`, `checked_add(..).unwrap()`; `stepW` / `runW` = the CAS loop with that state alongside.
+* `pickTimestampSt` / `framesSt`: the timestamp choice with the generator as a state machine.
 -/
 namespace ScyllaVerif.Timestamp
 
@@ -105,5 +108,119 @@ def seqRun : Nat → Int → List (Option Nat) → Option Nat → List Int
     let (r, rest) := readClock script lastEntry
     let v := computeNext last (r.map microsAsI64)
     v :: seqRun n v rest r
+
+/-! ### the warning arm of `compute_next` (timestamp_generator.rs:109-130)
+
+`compute_next` with everything it touches besides `last`: the optional warnings configuration, the
+`Mutex<Instant>` of the last warning, and the reading of the MONOTONIC clock (`Instant::now()`, line 114) taken
+inside the critical section. Instants and durations are natural numbers of nanoseconds. -/
+
+/-- `MonotonicTimestampGeneratorWarningsCfg` as the code uses it: `warning_threshold.as_micros() as i64`
+(line 111: it is NEGATIVE for thresholds of 2^63 µs and more) and `warning_interval` in nanoseconds. -/
+structure WarnCfg where
+  thresholdUs : Int
+  intervalNs : Nat
+  deriving Repr, DecidableEq
+
+/-- `last_warning : Mutex<Instant>`: the stored instant and the poison flag of the mutex. -/
+structure WarnSt where
+  lastWarnNs : Nat
+  poisoned : Bool
+  deriving Repr, DecidableEq
+
+/-- Which `warn!` a call of `compute_next` emitted. -/
+inductive Warned where
+  | no
+  | skew     -- line 119 "Clock skew detected. The current time (..) was .. microseconds behind .."
+  | epoch    -- line 133 "The current time was behind UNIX epoch."
+  deriving Repr, DecidableEq
+
+/-- `Instant::checked_add(Duration)` (std, unix `Timespec { tv_sec : i64, tv_nsec }`): `None` exactly when the
+seconds of the sum leave `i64`. -/
+def instantCheckedAdd (instNs durNs : Nat) : Option Nat :=
+  if (instNs + durNs) / 1000000000 < 2 ^ 63 then some (instNs + durNs) else none
+
+/-- `compute_next(last)` (lines 99-137) in full. `none` in the first component = the call PANICS:
+`self.last_warning.lock().unwrap()` on a poisoned mutex (line 113), or `checked_add(..).unwrap()` (line 115) -
+the latter while the guard is alive, so the unwinding poisons the mutex. `now` = `Instant::now()` of line 114. -/
+def computeNextW (cfg : Option WarnCfg) (last : Int) (clock : Option Int) (w : WarnSt) (now : Nat) :
+    Option (Int × Warned) × WarnSt :=
+  match clock with
+  | none => (some (last + 1, .epoch), w)
+  | some u =>
+    if u > last then (some (u, .no), w)
+    else match cfg with
+      | none => (some (last + 1, .no), w)
+      | some c =>
+        if last - u > c.thresholdUs then
+          if w.poisoned then (none, w)
+          else match instantCheckedAdd w.lastWarnNs c.intervalNs with
+            | none => (none, { w with poisoned := true })
+            | some due =>
+              if now ≥ due then (some (last + 1, .skew), { w with lastWarnNs := now })
+              else (some (last + 1, .no), w)
+        else (some (last + 1, .no), w)
+
+/-- The CAS loop with the warning state alongside (`core` is the machine of the theorems above; the critical
+section touches only `last_warning`, so it is part of the atomic `compute` step). `panics` counts calls that
+unwound out of `next_timestamp` (they return nothing and leave `last` alone). -/
+structure StW where
+  core : St
+  warn : WarnSt
+  panics : Nat
+
+inductive EvW where
+  | load (t : Nat)
+  | compute (t : Nat) (clock : Option Int) (now : Nat)
+  | cas (t : Nat)
+  deriving Repr, DecidableEq
+
+def EvW.erase : EvW → Ev
+  | .load t => .load t
+  | .compute t clock _ => .compute t clock
+  | .cas t => .cas t
+
+def stepW (cfg : Option WarnCfg) (s : StW) : EvW → StW
+  | .load t => { s with core := step s.core (.load t) }
+  | .cas t => { s with core := step s.core (.cas t) }
+  | .compute t clock now =>
+    match s.core.pcs t with
+    | .loaded l =>
+      match computeNextW cfg l clock s.warn now with
+      | (some (v, _), w') => { s with core := { s.core with pcs := setPc s.core.pcs t (.computed l v) }, warn := w' }
+      | (none, w') => { core := { s.core with pcs := setPc s.core.pcs t .idle }, warn := w', panics := s.panics + 1 }
+    | _ => s
+
+def runW (cfg : Option WarnCfg) (s : StW) (evs : List EvW) : StW := evs.foldl (stepW cfg) s
+
+/-- `calls` consecutive `next_timestamp()` calls on one thread of a warning-configured generator under the
+scripted clock; `nowOf lw` = the monotonic-clock reading taken when the stored instant is `lw`.
+Per call: `some (value, warning emitted)` or `none` = the call panicked (`last` unchanged, the reading consumed). -/
+def seqRunW (cfg : Option WarnCfg) (nowOf : Nat → Nat) :
+    Nat → Int → List (Option Nat) → Option Nat → WarnSt → List (Option (Int × Warned))
+  | 0, _, _, _, _ => []
+  | n + 1, last, script, lastEntry, w =>
+    let (r, rest) := readClock script lastEntry
+    match computeNextW cfg last (r.map microsAsI64) w (nowOf w.lastWarnNs) with
+    | (some (v, wd), w') => some (v, wd) :: seqRunW cfg nowOf n v rest r w'
+    | (none, w') => none :: seqRunW cfg nowOf n last rest r w'
+
+/-! ### the timestamp choice with the generator as a STATE (so that "not consulted" can be said) -/
+
+/-- `statement.get_timestamp().or_else(|| generator.next_timestamp())` with a stateful generator
+`g : σ → Int × σ`: the second component is the generator's state afterwards. -/
+def pickTimestampSt {σ : Type} (stmtTs : Option Int) (gen : Option (σ → Int × σ)) (s : σ) : Option Int × σ :=
+  match stmtTs with
+  | some t => (some t, s)
+  | none =>
+    match gen with
+    | some g => (some (g s).1, (g s).2)
+    | none => (none, s)
+
+/-- A statement sent `resends + 1` times by ONE call (`*_with_consistency`): one pick, then the frames. -/
+def framesSt {σ : Type} (stmtTs : Option Int) (gen : Option (σ → Int × σ)) (s : σ) (resends : Nat) :
+    List (Option Int) × σ :=
+  let p := pickTimestampSt stmtTs gen s
+  (List.replicate (resends + 1) p.1, p.2)
 
 end ScyllaVerif.Timestamp
